@@ -132,6 +132,16 @@ KNOWN_STRING_CONSTRUCTOR_ERRORS = (
 )
 
 
+def _inherits_string_constructor(cls):
+  """True for user exception classes that define no constructor of their own."""
+  for base in cls.__mro__:
+    if base.__module__ == 'builtins':
+      return base is not cls and issubclass(base, Exception)
+    if '__init__' in vars(base) or '__new__' in vars(base):
+      return False
+  return False
+
+
 # KeyError escapes newlines in strings. We create a special subclass
 # that doesn't do that. Overriding the name for display purposes; hopefully
 # that won't create too many surprises.
@@ -213,6 +223,12 @@ class ErrorMetadataBase(object):
     to_ret = None
     if preferred_type.__init__ is Exception.__init__:
       to_ret = preferred_type(self.get_message())
+    elif _inherits_string_constructor(preferred_type):
+      try:
+        to_ret = preferred_type(self.get_message())
+      except Exception:  # pylint:disable=broad-except
+        # The builtin base class does not take a plain message.
+        to_ret = None
     if preferred_type in KNOWN_STRING_CONSTRUCTOR_ERRORS:
       to_ret = preferred_type(self.get_message())
     elif preferred_type in (KeyError, MultilineMessageKeyError):
